@@ -396,3 +396,84 @@ func Stuck(id int64) (stuck bool, states []string) {
 	}
 	return stuck, states
 }
+
+// StuckAll is Stuck for a set of goroutines: true iff in each of 5 samples
+// every goroutine of ids that still exists sits in a blocking wait (and at
+// least one still exists in the last sample).
+func StuckAll(ids []int64) (stuck bool, last map[int64]string) {
+	stuck = true
+	for i := 0; i < 5; i++ {
+		last = map[int64]string{}
+		alive := 0
+		for _, id := range ids {
+			st := GoroutineState(id)
+			if st == "" {
+				continue
+			}
+			alive++
+			last[id] = st
+			if !blockedState(st) {
+				stuck = false
+			}
+		}
+		if alive == 0 {
+			stuck = false
+		}
+		if i < 4 {
+			time.Sleep(time.Second)
+		}
+	}
+	return stuck, last
+}
+
+func blockedState(st string) bool {
+	switch st {
+	case "semacquire", "sync.Mutex.Lock", "sync.RWMutex.Lock", "sync.RWMutex.RLock", "sync.Cond.Wait", "sync.WaitGroup.Wait", "chan receive", "chan send", "select", "chan receive (nil chan)", "chan send (nil chan)", "select (no cases)":
+		return true
+	}
+	return false
+}
+
+// Await waits for done. Every limit it looks at the goroutines ids() (those that
+// execute code under test on their own stack): if all of them are blocked it
+// returns a description (a hang / deadlock: a finding); if some are running it
+// keeps waiting (an overloaded machine is not a finding), and after 5 rounds
+// it gives up with a HARNESS panic (the run is inconclusive). With ids == nil
+// (the code under test runs behind a harness call that detects hangs itself)
+// it only ever waits or gives up.
+func Await(done <-chan struct{}, limit time.Duration, ids func() []int64, what string) string {
+	for round := 0; ; round++ {
+		select {
+		case <-done:
+			return ""
+		case <-time.After(limit):
+		}
+		if ids != nil {
+			if stuck, st := StuckAll(ids()); stuck {
+				return fmt.Sprintf("%s: not finished after %s and every goroutine involved is blocked: %v", what, limit*time.Duration(round+1), st)
+			}
+		}
+		if round >= 4 {
+			panic(fmt.Sprintf("HARNESS: %s: not finished after %d x %s although goroutines are still running: machine too slow to judge", what, round+1, limit))
+		}
+	}
+}
+
+// GoidSet collects goroutine ids from the goroutines themselves.
+type GoidSet struct {
+	mu  sync.Mutex
+	ids []int64
+}
+
+func (g *GoidSet) Add() {
+	id := Goid()
+	g.mu.Lock()
+	g.ids = append(g.ids, id)
+	g.mu.Unlock()
+}
+
+func (g *GoidSet) IDs() []int64 {
+	g.mu.Lock()
+	defer g.mu.Unlock()
+	return append([]int64(nil), g.ids...)
+}
